@@ -14,6 +14,7 @@ import (
 	"sort"
 	"strconv"
 	"strings"
+	"sync/atomic"
 	"time"
 
 	"github.com/youzan/ZanRedisDB/common"
@@ -139,6 +140,29 @@ func DumpKey(d map[string]string) string {
 	return fmt.Sprintf("%d keys %x", len(ks), h.Sum(nil)[:8])
 }
 
+var portCounter int32
+
+// FreeBase returns a base port such that base, base+1, base+2 and base+9 could be bound just now.
+func FreeBase() int {
+	for try := 0; try < 2000; try++ {
+		c := int(atomic.AddInt32(&portCounter, 1))
+		base := 20000 + ((os.Getpid()*131+c*17)%4000)*10
+		ok := true
+		for _, off := range []int{0, 1, 2, 9} {
+			ln, err := net.Listen("tcp", fmt.Sprintf("127.0.0.1:%d", base+off))
+			if err != nil {
+				ok = false
+				break
+			}
+			ln.Close()
+		}
+		if ok {
+			return base
+		}
+	}
+	return 20000
+}
+
 // ---- RESP client --------------------------------------------------------------------------
 
 type Reply struct {
@@ -218,6 +242,27 @@ func (c *Conn) DoN(raw []byte, n int) ([]Reply, error) {
 		out = append(out, r)
 	}
 	return out, nil
+}
+
+// DoFramed sends one command followed by a PING and returns every reply that precedes the PONG:
+// the number of replies of a command is observed, not assumed.
+func (c *Conn) DoFramed(args []string) ([]Reply, error) {
+	// a reply that never completes is an outcome for the caller to classify, never a verdict
+	c.c.SetDeadline(time.Now().Add(15 * time.Second))
+	if _, err := c.c.Write(append(Encode(args), Encode([]string{"ping"})...)); err != nil {
+		return nil, err
+	}
+	var out []Reply
+	for {
+		r, err := c.read()
+		if err != nil {
+			return out, err
+		}
+		if r.Kind == "str" && r.S == "PONG" {
+			return out, nil
+		}
+		out = append(out, r)
+	}
 }
 
 func (c *Conn) read() (Reply, error) {
